@@ -71,6 +71,8 @@ def run_kills(prop: str, mods: List[Any], tier: str) -> List[Dict[str, Any]]:
     kills: List[Tuple[str, str, str, str]] = []
     harmless: List[Tuple[str, str, str]] = []
     for m in mods:
+        if getattr(m, 'PROP', prop) != prop:
+            continue  # a module loaded for the harnesses it contributes to this property (dependency): its kill matrix belongs to its own check
         kills.extend(getattr(m, 'KILLS', []))
         harmless.extend(getattr(m, 'HARMLESS', []))
     if tier != 'thorough':
